@@ -13,22 +13,45 @@ FMT = "sink.valid, sink.data, sink.first, sink.last, source.ready[, extra inputs
 
 
 def bounds(lean_open):
-    """(K, K', coop_extra, stable, note) for a Lean machine name: K / K' are the bounds of the theorems
-    `X_progress` / `X_no_livelock` in lean/LitexProps/C04.lean.  None = element not covered by C04 theorems yet."""
+    """dict(k_hs, k_del, k_acc, coop_extra, stable, note) for a Lean machine name: the bounds K / K' / K_acc of the
+    theorems `X_progress` / `X_no_livelock` / `X_accepts|X_progress` in lean/LitexProps/C04.lean.
+    None = element not covered by C04 theorems."""
     ws = lean_open.split()
     name, ps = ws[0], [int(w) for w in ws[1:]]
+    B = lambda k_hs, k_del, k_acc=None, coop_extra=None, note=None: dict(
+        k_hs=k_hs, k_del=k_del, k_acc=k_acc, coop_extra=coop_extra, stable=True, note=note)
     if name == "pipevalid":
-        return 1, 2, None, True, None
+        return B(1, 2)
     if name == "pipeready":
-        return 1, 1, None, True, None
+        return B(1, 1)
     if name == "wire":
-        return 1, 1, None, True, None
+        return B(1, 1)
     if name == "buffer_vr":
-        return 1, 2, None, True, None
+        return B(1, 2)
     if name == "syncfifo":
-        return 1, 2, None, True, None
+        return B(1, 2)
     if name == "syncfifo_buffered":
-        return 1, 3, None, True, None
+        return B(1, 3)
+    if name in ("up", "strideup"):
+        return B(1, ps[0] + 1, 1)                       # upConv_progress / upConv_no_livelock (r + 1)
+    if name in ("down", "stridedown"):
+        return B(1, 1, ps[0])                           # downConv_no_livelock / downConv_accepts (r)
+    if name == "gearbox":
+        i, o = ps[0], ps[1]
+        return B(1, (o + i - 1) // i + 1)               # gearbox_progress / gearbox_no_livelock
+    if name == "gate":
+        return B(1, 1, coop_extra=lambda ex: ex[0] == 1,
+                 note="cooperative = valid, ready and enable; enable is held while a token waits (gate_stable)")
+    if name == "shifter":
+        return B(1, 3, 1, note="shift is held while a token waits at the source (shifter_stable, ShiftHeld)")
+    if name == "delay":
+        return B(1, ps[0] + 1, 1)
+    if name == "cast":
+        return B(1, 1)
+    if name == "bufferized_up":
+        return B(1, ps[0] + 3, 1)
+    if name == "chain3":
+        return B(1, 3)
     return None
 
 
@@ -50,17 +73,51 @@ def _wrap(job):
     instance is not covered."""
     def make():
         inner = job.make()
-        if not hasattr(inner, "lean_open") or not hasattr(inner, "tokens") or not hasattr(inner, "apply"):
-            return "%s: not a one-sink/one-source StreamInst" % getattr(inner, "name", "?")
-        b = bounds(inner.lean_open)
-        if b is None:
-            return "%s (%s): no C04 theorem yet" % (inner.name, inner.lean_open)
-        if inner.name.endswith("/allflags"):
-            return "%s: same element as the reduced-alphabet instance" % inner.name
-        k_hs, k_del, coop_extra, stable, note = b
-        return C04Inst(inner, k_hs, k_del, coop_extra=coop_extra, stable=stable, note=note,
-                       tokens=_pick_tokens(inner) if job.mode == "A" else None)
+        return wrap_inst(inner, job.mode)
     return make
+
+
+def wrap_inst(inner, mode):
+    lo = getattr(inner, "lean_open", "")
+    if lo.split()[:1] == ["mux"]:
+        return c04lib.RouteInst(inner, "mux")
+    if lo.split()[:1] == ["demux"]:
+        return c04lib.RouteInst(inner, "demux")
+    if not hasattr(inner, "tokens") or not hasattr(inner, "apply"):
+        return "%s: not a one-sink/one-source StreamInst" % getattr(inner, "name", "?")
+    b = bounds(lo)
+    if b is None:
+        return "%s (%s): no C04 theorem" % (inner.name, lo)
+    if inner.name.endswith("/allflags"):
+        return "%s: same element as the reduced-alphabet instance" % inner.name
+    return C04Inst(inner, tokens=_pick_tokens(inner) if mode == "A" else None, **b)
+
+
+def mk_chain3(depth, layout, tokens=None):
+    """Pipeline(PipeValid, SyncFIFO(depth), PipeReady): a mixed 3-element composition (Lean: chain3_*)."""
+    from streamlib import StreamInst
+    from litex.gen import LiteXModule
+    from litex.soc.interconnect import stream
+
+    class Chain3(LiteXModule):
+        def __init__(self):
+            self.pv = stream.PipeValid(layout)
+            self.fifo = stream.SyncFIFO(layout, depth)
+            self.pr = stream.PipeReady(layout)
+            self.pipeline = stream.Pipeline(self.pv, self.fifo, self.pr)
+            self.sink, self.source = self.pipeline.sink, self.pipeline.source
+
+    w = sum(x[1] for x in layout)
+    return StreamInst("Pipeline(PipeValid,SyncFIFO(%d),PipeReady)/%db" % (depth, w), Chain3(), "chain3 %d" % depth,
+                      capacity=depth + 2, tokens=tokens)
+
+
+def _is_route(job):
+    """Multiplexer/Demultiplexer jobs of C03 (recognised without building the instance: their constructors live
+    in c03lib as MuxInst/DemuxInst)."""
+    code = getattr(job.make, "__code__", None)
+    names = set(code.co_names) if code is not None else set()
+    return bool(names & {"MuxInst", "DemuxInst"})
 
 
 def jobs(tier):
@@ -68,11 +125,22 @@ def jobs(tier):
     quick = tier == "quick"
     J = []
     for job in c03.jobs(tier):
+        if _is_route(job):
+            if job.mode == "A":
+                J.append(Job("R", _wrap(job), deadline_s=40 if quick else 400))
+            else:
+                J.append(Job("B0", _wrap(job), cycles=job.kw.get("cycles", 3000), runs=job.kw.get("runs", 1)))
+            continue
         if job.mode == "A":
             J.append(Job("A", _wrap(job), max_states=min(job.kw.get("max_states", 20000), 20000 if quick else 400000),
                          deadline_s=40 if quick else 400))
         else:
             J.append(Job("B", _wrap(job), cycles=job.kw.get("cycles", 3000), runs=job.kw.get("runs", 1)))
+    T2 = [(0, 0, 1), (1, 1, 0)]
+    J.append(Job("A", lambda: wrap_inst(mk_chain3(2, [("data", 1)], T2), "A"), max_states=20000 if quick else 400000,
+                 deadline_s=40 if quick else 400))
+    J.append(Job("B", lambda: wrap_inst(mk_chain3(8, [("data", 16)]), "B"), cycles=3000 if quick else 30000,
+                 runs=1 if quick else 4))
     J.append(Job("A0", lambda: StatusInst(), max_states=10000))
     J.append(Job("B0", lambda: StatusInst("packet.Status/random"), cycles=4000 if quick else 40000, runs=1))
     return J
